@@ -48,8 +48,8 @@ def _apply(root: str, v: dict) -> Optional[str]:
         except OSError as ex:
             return f"cannot read {e['file']}: {ex}"
         n = s.count(e["old"])
-        if n != 1:
-            return f"target text occurs {n} times in {e['file']} (need exactly 1)"
+        if n != e.get("count", 1):
+            return f"target text occurs {n} times in {e['file']} (need exactly {e.get('count', 1)})"
         s = s.replace(e["old"], e["new"])
         if p.endswith(".py"):
             try:
